@@ -427,6 +427,16 @@ def invOf : SRow → KMap
   | drop r _ => invOf r
   | label r _ _ => invOf r
 
+/-- keys to which the row answers although the table it describes has no such key: a header-mapped LazySparse
+resolves `key = self._fwd.get(key,key)`, so it also answers to its raw keys -/
+def leak : SRow → List Key
+  | plain _ => []
+  | lazy _ _ _ fwd inv _ => if fwd.isEmpty then [] else inv.map (·.1)
+  | head _ _ _ => []
+  | encode r _ _ => leak r
+  | drop r _ => leak r
+  | label r _ _ => leak r
+
 /-- `row.keys()` as a duplicate-free list -/
 def keys : SRow → Res (List Key)
   | plain d => .ok (d.map (·.1))
@@ -940,13 +950,21 @@ def EagerD.labelVal (e : EagerD) : Option Val :=
 /-! ### sparse -/
 
 /-- encode the dict entries; a column whose encoded sparse zero is not 0 becomes explicit -/
-def encodeDictE (enc : List (Key × Enc)) (apply : Enc → Val → Res Val) (d : Dict) : Res Dict :=
+def encodeDictN (enc : List (Key × Enc)) (nsp : List Key) (apply : Enc → Val → Res Val) (d : Dict) : Res Dict :=
   match mapMRes (applyEntry (fun k v => apply (encOf enc k) v)) d with
   | .error e => .error e
   | .ok t1 =>
-    match mapMRes (zeroEntry (fun k v => apply (encOf enc k) v)) (kdiff (nspOf enc) (d.map (·.1))) with
+    match mapMRes (zeroEntry (fun k v => apply (encOf enc k) v)) (kdiff nsp (d.map (·.1))) with
     | .error e => .error e
     | .ok t2 => .ok (t1 ++ t2)
+
+/-- EncodeRows: the "not sparse" columns are those of `nspOf enc` -/
+def encodeDictE (enc : List (Key × Enc)) (apply : Enc → Val → Res Val) (d : Dict) : Res Dict :=
+  encodeDictN enc (nspOf enc) apply d
+
+/-- what a LazySparse row with encoders `enc` and "not sparse" columns `nsp` loads eagerly (still keyed by raw keys) -/
+def lazyDictE (enc : List (Key × Enc)) (nsp : List Key) (raw : Dict) : Res Dict :=
+  if enc.isEmpty then .ok raw else encodeDictN enc nsp lazyApply raw
 
 /-- rename the keys of a dict: every key needs a name -/
 def renameE (inv : KMap) (d : Dict) : Res Dict := mapMRes (renameEntry inv) d
@@ -958,17 +976,22 @@ def eagerBaseS : SBase → Res EagerS
   | .plain d => if distinct (d.map (·.1)) then .ok ⟨d, none, none, []⟩ else .error .valueError
   | .lazy d _ enc hdr miss =>
     if distinct (d.map (·.1)) && distinct (enc.map (·.1)) then
-      let inv : KMap := match hdr with | none => [] | some ns => ns.zipIdx.map (fun p => (Key.pos p.2, Key.name p.1))
-      match (if enc.isEmpty then Except.ok d
-             else mapMRes (applyEntry (fun k v => lazyApply (encOf enc k) v)) d) with
+      match lazyDictE enc [] d with
       | .error e => .error e
-      | .ok d' => .ok ⟨d'.map (fun p => ((dget inv p.1).getD p.1, p.2)), none, some miss, inv⟩
+      | .ok d' =>
+        match hdr with
+        | none => .ok ⟨d', none, some miss, []⟩
+        | some ns =>
+          let inv : KMap := ns.zipIdx.map (fun p => (Key.pos p.2, Key.name p.1))
+          if distinct ns then
+            match renameE inv d' with | .ok d'' => .ok ⟨d'', none, some miss, inv⟩ | .error e => .error e
+          else .error .valueError
     else .error .valueError
   | .arff cols raw miss =>
     if distinct (raw.map (·.1)) && distinct (cols.map (·.name)) then
       let encs := cols.zipIdx.map (fun p => (Key.pos p.2, Col.enc true p.1))
       let inv : KMap := cols.zipIdx.map (fun p => (Key.pos p.2, Key.name p.1.name))
-      match encodeDictE encs lazyApply raw with
+      match lazyDictE encs (nspOf encs) raw with
       | .error e => .error e
       | .ok d' => match renameE inv d' with | .ok d'' => .ok ⟨d'', none, some miss, inv⟩ | .error e => .error e
     else .error .valueError
